@@ -9,9 +9,9 @@ import runner_props
 from runner_props import viol
 
 PROP = "C13"
-LEAN_MODULES = ["PamsProps.C13", "PamsProps.SimE2E"]
-NAMESPACES = ["Pams.C13", "Pams.C13"]
-DRIVERS = ["Hooks", "Runner"]
+LEAN_MODULES = ["PamsProps.C13", "PamsProps.SimE2E", "PamsProps.SrcRunner"]
+NAMESPACES = ["Pams.C13", "Pams.C13", "Pams.C13"]
+DRIVERS = ["Hooks", "Runner", "PyRun"]
 TRUSTED = [
     "dict buckets of Simulator.events_dict are modelled as filters over the registration list (insertion-ordered dicts/lists)",
     "isinstance / identity filters are modelled on (market id, is IndexMarket)",
@@ -293,11 +293,14 @@ def run(ctx, model_available=True):
                     j = d[0]
                     diffs.append({"channel": "trace.hooks", "position": j, "model": pa[max(0, j - 3): j + 2],
                                   "impl": pb[max(0, j - 3): j + 2], "config": cfg, "seed": seed})
-    return {"evaluations": len(hashes), "distinct_nontrivial": len(nontriv),
+    res = {"evaluations": len(hashes), "distinct_nontrivial": len(nontriv),
             "rule": "random configurations with 1-3 user-written probe events, each with 1-4 hooks over all hook types, before/after, time lists (none, empty, repeated entries, out-of-run times), class and instance filters; one in 17 tries a double registration; non-trivial = run with hooks of >= 2 kinds and at least one invocation; distinct = hash(config, seed)",
             "samples": samples, "violations": violations, "diffs": diffs,
             "comparisons": {"dispatch_and_trace_comparisons": compared}, "traces_validated": len(builts),
             "distribution": dist, "monitor_checks": checks}
+    # (T2) the translated source of the scheduler (the dispatch sites) under the mini-Python semantics, against CPython
+    import py_checks
+    return py_checks.merge(res, ctx, ["runner"], n_each=100, model_available=model_available)
 
 
 def search(ctx, res):
